@@ -319,3 +319,71 @@ def _optimize_abstract(h):
         on = [c.op for c in res if c.reg[0].ind == w]
         h.ensure(f"wire{w}.neighbours-left-only-when-refused", all((a.word[-1], b.word[0]) in refuse for a, b in zip(on, on[1:])), bounded_shape=True)
     h.ensure("input-operations-untouched", all(c.op.word == (l,) for c, l in zip(seq, letters)), bounded_shape=True)
+
+
+# ---------------------------------------------------------------- optimize_circuit with feed-forward among the abstract operations
+FF_CASES = {
+    # letters, wires, measured-parameter dependencies {letter: wire it depends on}; 'M' is a measurement (never merges)
+    "M0-c1-m1": (["M", "c", "m"], [0, 1, 1], {"m": 0}),
+    "M0-m1-c1": (["M", "m", "c"], [0, 1, 1], {"m": 0}),
+    "g0-M0-c1-m1": (["g", "M", "c", "m"], [0, 0, 1, 1], {"m": 0}),
+    "c1-g0-M0-m1": (["c", "g", "M", "m"], [1, 0, 0, 1], {"m": 0}),
+    "M0-m1-n1": (["M", "m", "n"], [0, 1, 1], {"m": 0, "n": 0}),
+    "M0-c1-m1-d1": (["M", "c", "m", "d"], [0, 1, 1, 1], {"m": 0}),
+    "M0-N2-m1-n1": (["M", "N", "m", "n"], [0, 2, 1, 1], {"m": 0, "n": 2}),
+    "M0-m1-M0'-n1": (["M", "m", "N", "n"], [0, 1, 0, 1], {"m": 0, "n": 0}),
+}
+
+
+class FFOp(AbstractOp):
+    def __init__(self, word, deps=(), measure=False):
+        AbstractOp.__init__(self, word)
+        self.measurement_deps = set(deps)
+        self.measure = measure
+
+    def merge(self, other):
+        if self.measure or getattr(other, "measure", False) or not isinstance(other, FFOp):
+            raise AbstractOp.ops_mod.MergeFailure("abstract refusal")
+        return FFOp(self.word + other.word, self.measurement_deps | other.measurement_deps)
+
+
+@proof(["C03", "C04", "C10"], PU + ":optimize_circuit", name="optimize_circuit/abstract-feed-forward",
+       native="from native.c03_replay import replay; replay(OBLIGATION, I)")
+def _optimize_ff(h):
+    """abstract operations some of which carry measured-parameter dependencies: whatever is merged, every letter of the
+    source occurs exactly once in the result, per wire in the source order, and every operation that uses a measured
+    value comes after the measurement that produces it (and before a later measurement of the same mode)"""
+    ops, pu = h.module(OPS), h.module(PU)
+    AbstractOp.ops_mod = ops
+    names = sorted(FF_CASES)
+    letters, wires, deps = FF_CASES[names[h._reg("case", h.eng.choose(len(names), "case"))]]
+    q = [pu.RegRef(k) for k in range(max(wires) + 1)]
+    seq = [pu.Command(FFOp([l], [q[deps[l]]] if l in deps else (), measure=l in ("M", "N")), [q[w]]) for l, w in zip(letters, wires)]
+    out = h.call(pu.optimize_circuit, list(seq))
+    h.ensure("no-exception", out.returned, bounded_shape=True)
+    if not out.returned:
+        return
+    res = out.value
+    flat = "".join(str(c.op) for c in res)
+    h.ensure("every-source-operation-occurs-exactly-once", sorted(flat) == sorted(letters), bounded_shape=True)
+    for w in range(len(q)):
+        src = "".join(l for l, ww in zip(letters, wires) if ww == w)
+        got = "".join(str(c.op) for c in res if c.reg[0].ind == w)
+        h.ensure(f"wire{w}.same-word-in-order", got == src, bounded_shape=True)
+    # a user of a measured value sits between the measurement that precedes it in the source and the next one of that mode
+    pos = {l: k for k, c in enumerate(res) for l in str(c.op)}
+    for l, dw in deps.items():
+        if l not in pos:
+            continue
+        k = letters.index(l)
+        before = [m for m, ww in zip(letters[:k], wires[:k]) if ww == dw and m in ("M", "N")]
+        after = [m for m, ww in zip(letters[k + 1:], wires[k + 1:]) if ww == dw and m in ("M", "N")]
+        ok = all(pos.get(m, -1) < pos[l] for m in before[-1:]) and all(pos.get(m, 10 ** 6) > pos[l] for m in after[:1])
+        h.ensure(f"user-{l}-of-the-outcome-of-wire{dw}-stays-after-its-measurement", ok, bounded_shape=True)
+    for c in res:
+        want = set()
+        for l in str(c.op):
+            if l in deps:
+                want.add(q[deps[l]])
+        h.ensure(f"{c.op}.keeps-the-dependencies-of-its-parts", set(c.op.measurement_deps) == want, bounded_shape=True)
+    h.ensure("input-operations-untouched", all(c.op.word == (l,) for c, l in zip(seq, letters)), bounded_shape=True)
